@@ -316,6 +316,11 @@ pub fn gen_init(sh: &Shape, rng: &mut Rng, depth: usize) -> D {
             _ => rng.below(12) as usize,
         }
     };
+    // the containers' own default (the empty state), through the library's default path
+    if matches!(sh, Shape::Vec(..) | Shape::Str(..) | Shape::Flex(..)) && rng.chance(1, 12) {
+        let empty = match sh { Shape::Vec(..) => D::VecEmpty, Shape::Str(..) => D::StrFrom(vec![]), _ => D::FlexEmpty };
+        return D::Def(Box::new(empty));
+    }
     match sh {
         Shape::Vec(e, _) => {
             let n = count(rng);
@@ -400,6 +405,7 @@ pub fn decode_len(l: &LenS, b: &[u8]) -> u128 {
 pub fn render_init(sh: &Shape, d: &D) -> String {
     match (sh, d) {
         (_, D::Raw(b)) => render_sized(sh, b),
+        (_, D::Def(x)) => render_init(sh, x),
         (Shape::Vec(e, _), D::VecEmpty) if e.size() != 0 => "V[]".into(),
         (Shape::Vec(e, _), D::VecArr(xs)) | (Shape::Vec(e, _), D::VecIter(xs)) if e.size() == 0 => format!("V[*{}]", xs.len()),
         (Shape::Vec(e, _), D::VecEmpty) if e.size() == 0 => "V[*0]".into(),
